@@ -379,6 +379,13 @@ def specLoad (x : Ext) (rules : List (S.SRule × Bool)) : Option Json :=
         else chk rs (r.name :: seen)
     chk en []
 
+def ruleOutJson (r : Rule) : Json :=
+  let ms := (r.mats.getD []).map (fun p => (String.ofList p.1, String.ofList p.2))
+  let ms := ms.toArray.qsort (fun a b => a.1 < b.1 || (a.1 == b.1 && a.2 < b.2))
+  Json.mkObj [("name", sJ r.name),
+    ("matches", Json.arr (ms.map (fun p => Json.arr #[Json.str p.1, Json.str p.2]))),
+    ("condition", match r.condition with | some c => sJ c | none => Json.null)]
+
 /-- load template documents, then rule documents, build the engine, scan the events in order -/
 def runScenario (x : Ext) (tdocs : List Tpls) (rules : List Rule) (events : List Event) : Json :=
   let c0 : Compiler := {}
@@ -417,6 +424,114 @@ def handle (j : Json) : E Json := do
     let src ← jStr j "src"
     let id ← jInt (← j.getObjVal? "id")
     pure (Json.mkObj [("model", Json.bool (M.admits mo src id)), ("spec", Json.bool (S.admits mo src id))])
+  | "tpl_replace" =>
+    let tpls ← (← (← j.getObjVal? "tpls").getArr?).toList.mapM (fun e => do
+      let k ← (← e.getArrVal? 0).getStr?
+      let v ← (← e.getArrVal? 1).getStr?
+      pure (k.toList, v.toList))
+    let r ← jRule (← j.getObjVal? "rule")
+    -- a template document with a duplicate name does not deserialise
+    let dup := (tpls.map Prod.fst).eraseDups.length != tpls.length
+    let out : Json := if dup then "tplerr" else ruleOutJson (M.applyTemplates tpls r)
+    pure (Json.mkObj [("model", Json.mkObj [("outs", Json.arr #[out])])])
+  | "tpl_load" =>
+    let calls ← (← (← j.getObjVal? "calls").getArr?).toList.mapM (fun c => do
+      (← c.getArr?).toList.mapM (fun d => do
+        (← d.getArr?).toList.mapM (fun e => do
+          let k ← (← e.getArrVal? 0).getStr?
+          let v ← (← e.getArrVal? 1).getStr?
+          pure (k.toList, v.toList))))
+    let r ← jRule (← j.getObjVal? "rule")
+    let t ← match jOpt j "ext" with
+      | none => pure ({} : Tables)
+      | some e => jTables e
+    let x : Ext :=
+      { fparse := fun s => (t.fp.lookup s).getD none
+        rxOk := fun p => match t.rx.lookup p with
+          | some (ok, _) => ok
+          | none => true
+        rxMatch := fun _ _ => false }
+    -- one call = documents loaded in order; the first failing document ends the call
+    let rec loadDocs : List Tpls → Compiler → (Compiler × Json)
+      | [], c => (c, "ok")
+      | d :: ds, c =>
+        if (d.map Prod.fst).eraseDups.length != d.length then (c, "serde")
+        else match M.Compiler.loadTemplates c d with
+          | .ok c' => loadDocs ds c'
+          | .error e => (c, compErrJson e)
+    let rec loadCalls : List (List Tpls) → Compiler → List Json → (Compiler × List Json)
+      | [], c, acc => (c, acc.reverse)
+      | call :: rest, c, acc =>
+        let (c', res) := loadDocs call c
+        loadCalls rest c' (res :: acc)
+    let (c1, loads) := loadCalls calls {} []
+    let (c2, rl) : Compiler × Json := match M.Compiler.load c1 r with
+      | .ok c => (c, "ok")
+      | .error e => (c1, compErrJson e)
+    let (c3, err) := M.Compiler.compile x c2
+    let rules : Json := match err with
+      | some e => compErrJson e
+      | none => Json.arr (c3.rules.map ruleOutJson).toArray
+    pure (Json.mkObj [("model", Json.mkObj [("outs", Json.arr #[Json.mkObj [("loads", Json.arr loads.toArray), ("rule_load", rl), ("rules", rules)]])])])
+  | "history" =>
+    let x : Ext := { fparse := fun _ => none, rxOk := fun _ => true, rxMatch := fun _ _ => false }
+    let ops := (← (← j.getObjVal? "ops").getArr?).toList
+    let errJ := fun (e : CompErr) => Json.mkObj [("err", compErrJson e)]
+    let rec go : List Json → Compiler → List Json → E (List Json)
+      | [], _, acc => pure acc.reverse
+      | op :: rest, c, acc => do
+        let k ← op.getObjValAs? String "k"
+        match k with
+        | "tpl" =>
+          let d ← (← (← op.getObjVal? "doc").getArr?).toList.mapM (fun e => do
+            let a ← (← e.getArrVal? 0).getStr?
+            let b ← (← e.getArrVal? 1).getStr?
+            pure (a.toList, b.toList))
+          if (d.map Prod.fst).eraseDups.length != d.length then go rest c (errJ .serde :: acc)
+          else match M.Compiler.loadTemplates c d with
+            | .ok c' => go rest c' (Json.str "ok" :: acc)
+            | .error e => go rest c (errJ e :: acc)
+        | "load" =>
+          let docs := (← (← op.getObjVal? "docs").getArr?).toList
+          -- documents in order; the first failing one ends the call, earlier ones stay loaded
+          let rec loadDocs : List Json → Compiler → E (Compiler × Json)
+            | [], c => pure (c, Json.str "ok")
+            | d :: ds, c => do
+              match d with
+              | .str _ => pure (c, errJ .serde)
+              | _ =>
+                let r ← jRule d
+                match M.Compiler.load c r with
+                | .ok c' => loadDocs ds c'
+                | .error e => pure (c, errJ e)
+          let (c', o) ← loadDocs docs c
+          go rest c' (o :: acc)
+        | "compile" =>
+          let (c', e) := M.Compiler.compile x c
+          go rest c' ((match e with | none => Json.str "ok" | some e => errJ e) :: acc)
+        | "rules" =>
+          let (c', e) := if M.Compiler.isReady c then (c, none) else M.Compiler.compile x c
+          let o := match e with
+            | some e => errJ e
+            | none => Json.mkObj [("rules", Json.arr (c'.rules.map (fun r =>
+                let ro := ruleOutJson r
+                Json.arr #[sJ r.name, (ro.getObjVal? "matches").toOption.getD Json.null])).toArray)]
+          go rest c' (o :: acc)
+        | "compiled" =>
+          let (c', e) := if M.Compiler.isReady c then (c, none) else M.Compiler.compile x c
+          let o := match e with
+            | some e => errJ e
+            | none => Json.mkObj [("compiled", Json.arr (c'.compiled.map (fun r => sJ r.name)).toArray)]
+          go rest c' (o :: acc)
+        | "clone" => go rest c (Json.str "ok" :: acc)
+        | "engine" =>
+          let o := match M.Engine.ofCompiler x c with
+            | .error e => errJ e
+            | .ok e => Json.mkObj [("engine", Json.num (Int.ofNat e.rules.length)), ("names", Json.arr (e.rules.map (fun r => sJ r.name)).toArray)]
+          go rest c (o :: acc)
+        | _ => throw "bad history op"
+    let outs ← go ops {} []
+    pure (Json.mkObj [("model", Json.arr outs.toArray)])
   | "load_text" =>
     -- whole-text inputs go through serde_yaml, which is not modelled: the model's answer is the
     -- statement of C15_load / C15_compile / compileInto_no_panic (no panic outcome is reachable)
